@@ -318,7 +318,8 @@ fn c13_stmt(h: &mut Hist, rng: &mut Rng, allow_def: bool)
 		6 =>
 		{
 			let n = rng.below(6) as usize;
-			let s: String = (0..n).map(|_| (b'a' + rng.below(26) as u8) as char).collect();
+			// also multi-byte characters: the room a string needs is its length in BYTES
+			let s: String = (0..n).map(|_| if rng.chance(1, 3) { *rng.pick(&['é', '€', '😀', 'ß']) } else { (b'a' + rng.below(26) as u8) as char }).collect();
 			h.text.push_str(&format!(".dstr \"{}\";\n", s));
 			h.place(s.into_bytes(), false);
 		},
@@ -948,6 +949,10 @@ fn corpus_c13() -> Vec<(Project, String)>
 		(single(".addr 0x101; .align 512; .du8 1; .align 0x300; NOP;"), format!("V ok | S 101 {} i | S 200 01 i | S 201 {} i | S 300 00bf i", "be".repeat(255), "be".repeat(255))),
 		(single(".addr 0x300; NOP; .addr 0x0; .du8 1; .align 1024;"), "V overflow | S 300 00bf i | S 0 01 i".into()),
 		(single(".addr 0xFFFFFC01; .align 512; .align 1024;"), format!("V ok | S fffffc01 {} i | S fffffe00 {} i", "be".repeat(511), "be".repeat(512))),
+		// a string whose character count fits the room before the next region but whose bytes do not
+		(single(".addr 0x108; .dstr \"NEXT\"; .addr 0x100; .dstr \"\u{e9}\u{e9}\u{e9}\u{e9}\u{e9}\";"), "V overflow | S 108 4e455854 i".into()),
+		(single(".addr 0x108; .dstr \"NEXT\"; .addr 0x100; .dstr \"\u{e9}\u{e9}\u{e9}\u{e9}\";"), "V ok | S 108 4e455854 i | S 100 c3a9c3a9c3a9c3a9 i".into()),
+		(single(".addr 0xFFFFFFFC; .dstr \"\u{e9}\u{e9}\u{e9}\";"), "V overflow".into()),
 		// a region of more than 64 KiB (and of 128 KiB), then a fresh region: the next byte goes to the selected address
 		(single(".addr 0x20000001; .du8 0x55; .align 0x20000; .addr 0x10000000; .du8 0xA1; .du8 0xA2;"), format!("V ok | S 20000001 55 i | S 20000002 {} i | S 10000000 a1 i | S 10000001 a2 i", "be".repeat(0x1fffe))),
 		(single(".addr 0x30000000; .align 0x10000; .du8 1; .align 0x10000; .addr 0x30000000 - 2; .du16 0x0302; .addr 0x40000000; .du8 4;"), format!("V ok | S 30000000 01 i | S 30000001 {} i | S 2ffffffe 0203 i | S 40000000 04 i", "be".repeat(0xffff))),
@@ -965,6 +970,9 @@ fn corpus_c05_subdir() -> Vec<(Project, String)>
 		(Project{files: vec![f("root.asm", ".addr 0x200; .include \"x/y/deep.asm\"; L: .du8 L & 0xFF;"), f("x/y/deep.asm", ".dfile \"d.bin\"; .include \"z/leaf.asm\";"),
 			f("x/y/z/leaf.asm", ".du16 0x1234;"), ("x/y/d.bin".into(), vec![7]), ("d.bin".into(), vec![0xDD]), f("z/leaf.asm", ".du8 0xEE;")], root: "root.asm".into()},
 			"IMG 200:07341203".into()),
+		// an included file with the base name of the file that includes it, in another directory
+		(Project{files: vec![f("root.asm", ".addr 0x300; .du8 1; .include \"boot/root.asm\"; .du8 3;"), f("boot/root.asm", ".du8 2; .include \"inner/root.asm\";"), f("boot/inner/root.asm", ".du8 0x22;")], root: "root.asm".into()},
+			"IMG 300:01022203".into()),
 	]
 }
 
